@@ -7,6 +7,7 @@ use e5_harness::*;
 use crate::corpus::*;
 use crate::oracle::*;
 
+#[cfg(stageleft_runtime)]
 pub const META: PropMeta = PropMeta {
     id: "C36",
     quick_runs: 120_000,
@@ -28,6 +29,7 @@ pub const META: PropMeta = PropMeta {
     required_probes: &["e2e_multi_tick_schedule", "e2e_empty_batch_tick", "e2e_snapshot_skipped_version", "e2e_await_served_mid_workload", "e2e_observation"],
 };
 
+#[cfg(stageleft_runtime)]
 pub fn run_one(flow: &Flow, inp: &RunIn<'_>) -> RunOut {
     let kind = flow.kind;
     let steps = workload(kind, inp.run_seed);
@@ -63,6 +65,7 @@ pub fn run_one(flow: &Flow, inp: &RunIn<'_>) -> RunOut {
     out
 }
 
+#[cfg(stageleft_runtime)]
 #[test]
 fn e2e_c36() {
     let Some(cfg) = cfg_for("C36") else { return };
